@@ -8,7 +8,7 @@ from . import cexec
 
 WASI_DEFS = ['-DHAS_UNISTD=1', '-DHAS_SYSUIO=1', '-DHAS_SYSTIME=1', '-DHAS_SYSRESOURCE=1', '-DHAS_STRNDUP=1', '-DHAS_FCNTL=1',
              '-DHAS_LSTAT=1', '-DHAS_GETENTROPY=1', '-DHAS_TIMESPEC=1', '-DWASM_THREADS_PTHREADS']
-AGENT_CMD = ['clang', '-O1', '-g', '-w', '-fsanitize=address,undefined', '-fno-sanitize-recover=all', '-fno-omit-frame-pointer']
+AGENT_CMD = ['clang', '-std=gnu90', '-O1', '-g', '-w', '-fsanitize=address,undefined', '-fno-sanitize-recover=all', '-fno-omit-frame-pointer']
 
 # WASI errno numbers (wasi_snapshot_preview1 witx) by POSIX name
 E = {'SUCCESS': 0, '2BIG': 1, 'ACCES': 2, 'AGAIN': 6, 'BADF': 8, 'BUSY': 10, 'CHILD': 12, 'DOM': 18, 'EXIST': 20, 'FAULT': 21,
